@@ -376,7 +376,8 @@ TAG_ITEM_ATTRIBUTES_SPECIAL_VALUES = {
     'form'   : lambda em : em.getParentElementCustomFilter( lambda em : em.tagName == 'form' ),
     'cols'   : _special_value_cols,
     'rows'   : _special_value_rows,
-    'sandbox' : lambda em : _DOMTokenList_type( em.getAttribute('sandbox', '') ),
+    # A value-less sandbox attribute ( <iframe sandbox> ) is the empty token list
+    'sandbox' : lambda em : _DOMTokenList_type( em.getAttribute('sandbox', '') or '' ),
 
     # track->kind has a default of "subtitles", an invalid of "metadata", and possible of the list below.
     'kind' : lambda em : convertPossibleValues(em.getAttribute('kind', "subtitles"), POSSIBLE_VALUES_TRACK__KIND, invalidDefault="metadata", emptyValue=EMPTY_IS_INVALID)
